@@ -79,7 +79,9 @@ def similarity(a, b):
     ca, cb = a.get("callers"), b.get("callers")
     if ca and cb is not None:
         same_callers = 1.0 if ca == cb else 0.0
-        return 0.45 * same_callers + 0.55 * body
+        # identical call sites make up for a changed body; a changed caller name (itself renamed) must not count
+        # against an unchanged body
+        return max(body, 0.45 * same_callers + 0.55 * body)
     return body
 
 
